@@ -322,7 +322,7 @@ fn parse_date(t: &[u8]) -> Option<(i32, u32, u32)> {
 }
 
 /// "HH:MM:SS[.ffffff]" with two or more hour digits
-fn parse_time(t: &[u8]) -> Option<(u64, u32, u32, u32)> {
+pub(crate) fn parse_time(t: &[u8]) -> Option<(u64, u32, u32, u32)> {
     let s = std::str::from_utf8(t).ok()?;
     let (hms, us) = match s.split_once('.') {
         Some((a, b)) => {
@@ -856,6 +856,7 @@ pub fn build(quick: bool) -> Check {
         Box::new(Rows { pal, small }),
         Box::new(RecoverText),
         Box::new(SeamHistories::new()),
+        Box::new(super::c07::TemporalEdges { bin: false }),
     ];
     if !quick {
         for w in 0..3 {
@@ -865,7 +866,7 @@ pub fn build(quick: bool) -> Check {
     Check {
         id: "C06",
         level: "model_checking",
-        rule: "values at the public to_mysql_text seam, decoded by refwire and by mysql_common's TextValue: u8/i8/u16/i16 exhaustive (u32/i32/finite f32 exhaustive in thorough); u64/i64/usize/isize/f64/f32 over all 2^k, 2^k+-1, 10^k+-1, d*10^k, repdigits and digit runs of every length, every value -20000..70000, m*10^k for every decimal exponent, bounds, subnormals, non-terminating fractions; every calendar date of years 0..9999, every second of a day x 4 microsecond values, every second of 0..838:59:59 x 4 microsecond values, 22 microsecond values of every decimal shape at further times and durations; byte strings of every length 0..300, 65534..65537 (and 2^24-1..2^24+1 in thorough) x 6 leading bytes incl. 0xFB..0xFF; Option, &T, String/str/Vec<u8>, mysql_common::Value variants; NULL vs \"\" vs \"NULL\". Through rows: every arrangement of <= 3 cells over a 15-value mixed palette and rotations for shapes up to 3x4, via write_col and write_row; a refused text value (invalid generic date, negative generic time) at each column followed by a replacement. Encoding histories at the seam: every ordered pair of a 29-value palette (bit twins of different types such as -1i64 / u64::MAX or 1.0f32 / 1065353216u32, temporal values, strings), the first encoded into a good or a failing writer, the second must get the bytes it gets on a thread that never encoded anything else; the bit twins also sit next to each other in the row arrangements. Values in context: every sequence of <= 3 (thorough: 4) events on one connection (rows of other shapes incl. all-NULL / alternating NULLs / 300- and 70000-byte cells, a refused cell, a new resultset behind finish_one with the same or other columns, behind a completion, behind a zero-column set, a new command in the same or the other protocol, finish_error) followed by a probe row of characteristic values for nine column types; every row of the conversation must decode cell for cell to what was written. Non-trivial = beyond what the unit tests sample (1, MAX, one date).".into(),
+        rule: "values at the public to_mysql_text seam, decoded by refwire and by mysql_common's TextValue: u8/i8/u16/i16 exhaustive (u32/i32/finite f32 exhaustive in thorough); u64/i64/usize/isize/f64/f32 over all 2^k, 2^k+-1, 10^k+-1, d*10^k, repdigits and digit runs of every length, every value -20000..70000, m*10^k for every decimal exponent, bounds, subnormals, non-terminating fractions; every calendar date of years 0..9999, every second of a day x 4 microsecond values, every second of 0..838:59:59 x 4 microsecond values, 22 microsecond values of every decimal shape at further times and durations; byte strings of every length 0..300, 65534..65537 (and 2^24-1..2^24+1 in thorough) x 6 leading bytes incl. 0xFB..0xFF; Option, &T, String/str/Vec<u8>, mysql_common::Value variants; NULL vs \"\" vs \"NULL\". Through rows: every arrangement of <= 3 cells over a 15-value mixed palette and rotations for shapes up to 3x4, via write_col and write_row; a refused text value (invalid generic date, negative generic time) at each column followed by a replacement. Temporal values the protocol cannot carry (nanoseconds below a microsecond, chrono's leap second, durations of 2^32 days and more): refused, or decoded to a legal value equal to the written one up to the microsecond. Encoding histories at the seam: every ordered pair of a 29-value palette (bit twins of different types such as -1i64 / u64::MAX or 1.0f32 / 1065353216u32, temporal values, strings), the first encoded into a good or a failing writer, the second must get the bytes it gets on a thread that never encoded anything else; the bit twins also sit next to each other in the row arrangements. Values in context: every sequence of <= 3 (thorough: 4) events on one connection (rows of other shapes incl. all-NULL / alternating NULLs / 300- and 70000-byte cells, a refused cell, a new resultset behind finish_one with the same or other columns, behind a completion, behind a zero-column set, a new command in the same or the other protocol, finish_error) followed by a probe row of characteristic values for nine column types; every row of the conversation must decode cell for cell to what was written. Non-trivial = beyond what the unit tests sample (1, MAX, one date).".into(),
         assumptions: vec![
             "a conformant client parses numeric text with the same-width standard parser; floats must round-trip bit-exactly".into(),
             "64-bit numeric domains are covered at lattices, not exhaustively".into(),
@@ -882,6 +883,6 @@ pub fn build(quick: bool) -> Check {
             }
             f
         },
-        required: vec!["aftermath_recovered", "context_walks", "boundary_cells", "seam_histories", "scalar_values", "dates", "times_of_day", "durations", "strings_beyond_65535", "row_arrangements", "text_recoveries"],
+        required: vec!["aftermath_recovered", "context_walks", "boundary_cells", "temporal_edges", "seam_histories", "scalar_values", "dates", "times_of_day", "durations", "strings_beyond_65535", "row_arrangements", "text_recoveries"],
     }
 }
